@@ -17,6 +17,7 @@ func init() {
 			"R-C10-2: WriteFrame, WriteFrameToWriter and ReadFrameFromReader use the same header layout {size 21, id [0,16), type at 16, length [17,21) big-endian}. " +
 			"R-C10-3: FrameStream.Write frames consecutive windows p[lo:hi] of the caller's buffer starting at 0 with hi-lo <= MaxFrameSize and the next window starting where the last ended, returns the bytes framed on error and the whole length on success. " +
 			"R-C10-4: FrameStream.Read copies a fresh payload to the caller only under tunnel-id equality and frame type data; the (buffer, offset) pair it keeps denotes exactly the unread remainder and is served before the next frame; EOF/Close frames latch end-of-stream. " +
+			"Delegating Read/Write wrappers on the cross-node path (CountingReadWriter) return the inner call's byte count on every path. " +
 			"R-C10-5: after half-close or close Write is refused, and the closed flag is set only after the EOF/Close frame was written. " +
 			"Decides these necessary conditions; does not decide byte equality over TCP or tunnel-id truncation collisions.",
 		Run: runC10,
@@ -650,6 +651,10 @@ func runC10(r *Report) {
 	}
 	if nEOF == 0 {
 		r.Fail("R-C10-4", rf.Pos(), "no end-of-stream return after the frame read found", "FrameStream.Read", "eof-latched")
+	}
+	// wrappers between the local connection and the frame stream are transparent
+	if nw := checkDelegatingWrappers(r, "R-C10-4", "internal/protocol/session", cnPkg); nw < 2 {
+		r.Fail("R-C10-4", 0, fmt.Sprintf("only %d delegating Read/Write wrappers found on the cross-node path (2 confirmed by hand: CountingReadWriter.Read/Write)", nw), "wrappers", "floor")
 	}
 	r.Floor("R-C10-4", 4, "delivery obligations")
 }
